@@ -522,7 +522,8 @@ orc_bytecode_parse_function (OrcProgram *program, const orc_uint8 *bytecode)
       if (insn->opcode->src_size[2] != 0) {
         insn->src_args[2] = orc_bytecode_parse_get_int (parse);
       }
-      insn->flags = instruction_flags;
+      insn->flags = instruction_flags &
+          (ORC_INSTRUCTION_FLAG_X2 | ORC_INSTRUCTION_FLAG_X4);
       instruction_flags = 0;
 
       program->n_insns++;
